@@ -1,5 +1,5 @@
 (* C14 / C15 proofs.  No axioms. *)
-From Coq Require Import List Bool Arith ZArith String Lia.
+From Coq Require Import List Bool Arith ZArith String Lia Floats.PrimFloat.
 Import ListNotations.
 From ByC Require Import Base.Result Model.Objects.
 Local Open Scope string_scope.
@@ -66,6 +66,29 @@ Proof.
   - exact IH.
   - apply String.eqb_eq in K. subst k'. now rewrite E.
   - exact IH.
+Qed.
+
+(* the binary64 version used by the correspondence runner bad_reduce: same keys in the same order, every
+   key ending in "threshold" holds exactly the binary64 difference v - r (None = 0), the rest is copied *)
+Lemma flookup_reduce_f d r k :
+  flookup (reduce_thresholds_f d r) k =
+  match flookup d k with
+  | Some v => Some (if ends_with k "threshold" then (v - match r with Some x => x | None => 0 end)%float else v)
+  | None => None
+  end.
+Proof.
+  induction d as [|[k' v] t IH]; [reflexivity|].
+  unfold reduce_thresholds_f in *. cbn [map fst snd].
+  destruct (ends_with k' "threshold") eqn:E; cbn [flookup]; destruct (String.eqb k k') eqn:K.
+  - apply String.eqb_eq in K. subst k'. now rewrite E.
+  - exact IH.
+  - apply String.eqb_eq in K. subst k'. now rewrite E.
+  - exact IH.
+Qed.
+Lemma reduce_f_keys d r : map fst (reduce_thresholds_f d r) = map fst d.
+Proof.
+  unfold reduce_thresholds_f. rewrite map_map. apply map_ext. intros [k v]. cbn [fst snd].
+  destruct (ends_with k "threshold"); reflexivity.
 Qed.
 
 Theorem reduce_leaves_min_n_cycles d r : lookup (reduce_thresholds d r) "min_n_cycles" = lookup d "min_n_cycles".
